@@ -195,11 +195,11 @@ class _Sys:
     """Stand-in for the sys module inside liquid.context: getsizeof answers from symbolic per-kind sizes."""
 
     def getsizeof(self, obj, default=1):
-        if isinstance(obj, str):
+        if issubclass(type(obj), str):
             return SIZES["str"] + len(obj)
-        if isinstance(obj, bool):
+        if type(obj) is bool:
             return SIZES["other"]
-        if isinstance(obj, int):
+        if issubclass(type(obj), int):
             return SIZES["int"]
         return SIZES["other"]
 
